@@ -3,7 +3,10 @@
 
 * the `dict(...)` returned by `_create_property_observe_state` (post_init, dispatch)
 * normalised source (ast.unparse: comments / layout insensitive) of
-  - `_create_property_observe_state.handler`
+  - `_create_property_observe_state` (whole function) and its `handler`
+  - the two `if trait.type == "property" ...` blocks of `update_traits_class_dict` (how `cached`, `observe`
+    and `depends_on` reach the handler / the legacy listener)
+  - the statements of `traits.py:Property` that derive `depends_on` / `cached` metadata from the getter
   - `cached_property.decorator`
   - `HasTraits._init_trait_property_listener`  (legacy depends_on)
   - `HasTraits._init_trait_observers` / `_post_init_trait_observers`
@@ -92,6 +95,26 @@ def emit(traits_dir):
         raise ValueError("post_init is not a boolean constant")
     if not (isinstance(kw["dispatch"], ast.Constant) and isinstance(kw["dispatch"].value, str)):
         raise ValueError("dispatch is not a string constant")
+    # ---- metaclass: the blocks that wire a property's dependencies
+    utcd = _find(tree.body, ast.FunctionDef, "update_traits_class_dict")
+    wiring = []
+    for n in ast.walk(utcd):
+        if isinstance(n, ast.If):
+            t = ast.unparse(n.test)
+            if "trait.type == 'property'" in t and ("trait.observe" in t or "trait.depends_on" in t):
+                wiring.append(ast.unparse(n))
+    if len(wiring) != 2:
+        raise ValueError("update_traits_class_dict: expected 2 property wiring blocks, found %d" % len(wiring))
+    # ---- traits.py Property(): metadata derived from the getter
+    ttree = ast.parse(open(os.path.join(traits_dir, "traits.py")).read())
+    pfun = _find(ttree.body, ast.FunctionDef, "Property")
+    meta = []
+    for n in pfun.body:
+        src = ast.unparse(n)
+        if ("'depends_on'" in src and "setdefault" in src) or "'cached_property'" in src:
+            meta.append(src)
+    if len(meta) != 2:
+        raise ValueError("traits.Property: expected 2 metadata statements, found %d" % len(meta))
     # ---- cached_property
     cp = _find(tree.body, ast.FunctionDef, "cached_property")
     deco = _find(cp.body, ast.FunctionDef, "decorator")
@@ -126,6 +149,9 @@ def emit(traits_dir):
         "def postInit : Bool := %s" % ("true" if kw["post_init"].value else "false"),
         "def dispatch : String := %s" % lean_str(kw["dispatch"].value),
         "def handlerSrc : String := %s" % lean_str(_strip_doc(handler)),
+        "def observeStateSrc : String := %s" % lean_str(_strip_doc(cpos)),
+        "def wiringSrc : List String := %s" % lean_list(wiring),
+        "def propertyMetadataSrc : List String := %s" % lean_list(meta),
         "def cacheNameSrc : String := %s" % lean_str(ast.unparse(name_assign[0])),
         "def cachedPropertySrc : String := %s" % lean_str(_strip_doc(deco)),
         "def legacyListenerSrc : String := %s" % lean_str(_strip_doc(legacy)),
